@@ -4,7 +4,7 @@
 use crate::common::*;
 use cteepbd::*;
 
-const BASES: [&str; 6] = [
+const BASES: [&str; 7] = [
     "U:CAL:ELECTRICIDAD;P:EL_INSITU",
     "1/U:ACS:EAMBIENTE;1/X;1/O:ACS;D:ACS",
     "U:ACS:ELECTRICIDAD;P:EL_COGEN;U:COGEN:GASNATURAL",
@@ -13,13 +13,15 @@ const BASES: [&str; 6] = [
     // production on the same system; heat pump with declared ambient production and biomass cogeneration
     "3/U:ACS:BIOMASA;3/O:ACS;3/P:EL_INSITU;U:ACS:GASNATURAL;D:ACS",
     "1/U:ACS:ELECTRICIDAD;1/U:ACS:EAMBIENTE;1/P:EAMBIENTE;P:EL_COGEN;U:COGEN:BIOMASA;D:ACS",
+    // both electricity sources (priority allocation)
+    "U:CAL:ELECTRICIDAD;P:EL_INSITU;P:EL_COGEN;U:COGEN:GASNATURAL;U:NEPB:ELECTRICIDAD",
 ];
 
 pub fn units(tier: &str, seed: u64) -> Vec<String> {
     let mut v = vec![];
     for (bi, b) in BASES.iter().enumerate() {
         let nl = b.split(';').count();
-        let mut cs: Vec<String> = vec!["none".into(), "dem2".into(), "salidafirst".into(), "auxfirst".into(), "demfirst".into(), "legacy".into()];
+        let mut cs: Vec<String> = vec!["none".into(), "longtext0".into(), "longtext1".into(), "dem2".into(), "salidafirst".into(), "auxfirst".into(), "demfirst".into(), "legacy".into()];
         for i in 0..nl {
             cs.push(format!("only:{}", i));
             cs.push(format!("trunc:{}", i));
@@ -51,6 +53,14 @@ pub fn corrupt(lines: Vec<String>, c: &str, val: &dyn Fn(&str) -> String) -> Vec
     if c == "dem2" {
         l.push(format!("DEMANDA, ACS, {}, {}", val("dx0"), val("dx1")));
         l.push(format!("DEMANDA, ACS, {}", val("dx2")));
+    } else if c == "longtext0" || c == "longtext1" {
+        // a malformed line carrying a long comment of two-byte characters (error messages that quote the line must not
+        // cut it inside a character), in both alignments
+        let pad = if c == "longtext1" { "x" } else { "" };
+        let i = l.len() / 2;
+        if let Some((a, _)) = l[i].clone().rsplit_once(", ") {
+            l[i] = format!("{}, abc # {}{}", a, pad, "áéíóúñ".repeat(60));
+        }
     } else if c == "salidafirst" {
         l.insert(0, format!("1, SALIDA, CAL, {}, {}", val("sx0"), val("sx1")));
     } else if c == "auxfirst" {
